@@ -9,7 +9,8 @@ PROP_FILE = "Properties/Properties_C13.v"
 RULE = ("a sample of the generated and mutated inputs of C01/C02/C04/C08/C09/C12, each evaluated in three deliberately different "
         "environments - (A) -O1 with ASan/UBSan, heap fill A5, output objects pre-filled 5A, input in an exactly sized block; "
         "(B) the shipping flags -O2 -D_FORTIFY_SOURCE=2 -fstack-protector-strong, heap fill 00, output pre-fill FF, 64 junk bytes "
-        "41.. right after every input, after a different preceding call; (C) -O0, heap fill FF, pre-fill 00, junk C3.. - the "
+        "41.. right after every input, after a different preceding call, stack zeroed before every call; (C) -O0, heap fill FF, pre-fill 00, junk C3.., stack filled with FF "
+        "((A) fills the stack with a pattern derived from the case: small words 0..47, all ones, random) - the "
         "canonical field-wise observations (pointers followed, input wiped and released before the result is read, input compared "
         "before/after) must agree with each other and with the model; non-trivial = distinct input evaluated in all three")
 TRUSTED = ["Coq 8.16.1 kernel", "the hand-written models (their results are functions of the input bytes by construction; independence from "
@@ -17,7 +18,7 @@ TRUSTED = ["Coq 8.16.1 kernel", "the hand-written models (their results are func
            "compiler is OBSERVED across these builds, not proved (no compiler model is available)", "harness environment knobs (env op)"]
 ASSUMPTIONS = ["x86-64, glibc", "libwifi_parse_radiotap_rssi is excluded (it has no length argument, F34)"]
 
-ENVS = {"san": "env 165 90 0 0", "ship": "env 0 255 64 65", "dbg": "env 255 0 64 195"}
+ENVS = {"san": "env 165 90 0 0", "ship": "env 0 255 64 65 -1 0", "dbg": "env 255 0 64 195 -1 255"}   # heap fill, pre-fill, tail, tail byte, placement, stack pattern
 WARM = "mgmt 0 80000000ffffffffffff0102030405060102030405060000000000000000000064000100000361626303010b"
 
 
@@ -36,6 +37,10 @@ def gen_cases(tier, seed):
     # boundary families that sampling must not drop
     cases += c08.count_cases(rng)
     cases += c08.ie_cases(rng)
+    from . import frames as F
+    wide = F.wide(rng, True)
+    cases += ["iter " + hx(b) for b in wide["iter"][:5]] + ["mgmt %d %s" % (rt, hx(b)) for rt, b in wide["mgmt"]] + \
+             ["classify %d %s" % (rt, hx(b)) for rt, b in wide["classify"]]
     return cases, {"per_source_property": per, "total": len(cases)}
 
 
